@@ -182,6 +182,7 @@ structure Cfg where
   ensureSorted : Bool := false
   countLo : Int := -2147483648 -- range of the count column's dtype (default int32)
   countHi : Int := 2147483647
+  infoOk : Bool := true        -- `metadata` is JSON compatible (`json.dumps` in `write_info` succeeds)
   chromsId : Nat := 1          -- content ids of what this creation writes
   binsId : Nat := 2
   indexesId : Nat := 3
@@ -209,6 +210,7 @@ inductive Fault
   | err (e : Err)      -- BadInputError (validator) / ValueError (dtype overflow)
   | os                 -- OSError: mode "r+" on a missing file
   | iter               -- whatever the input iterator raised, propagated unchanged
+  | type               -- TypeError: `json.dumps(metadata)` in `write_info`, before any attribute is written
 deriving DecidableEq, Repr, Inhabited
 
 def maxSize (n : Nat) (symm : Bool) : Nat := if symm then n * (n - 1) / 2 + n else n * n
@@ -262,6 +264,7 @@ def Step.fails (cfg : Cfg) : Step → FS → Option Fault
     | .error e => some (.err e)
     | .ok _ => none
   | .checkFits c, _ => if fitsDtype cfg c then none else some (.err .value)
+  | .writeInfo, _ => if cfg.infoOk then none else some .type
   | _, _ => none
 
 /-- what the validator hands to `write_pixels` (the sorted chunk under `ensure_sorted`) -/
@@ -355,6 +358,17 @@ def unorderedPre (tcfg : Nat → Cfg) : Nat → List Ev → List PStep
 
 /-- `merge_coolers` / `coarsen_cooler`: input checks, then `create()` fed by the merger/coarsener -/
 def producerPre (inputsOk : Bool) : List PStep := [.check inputsOk]
+
+/-- an option that `create()` rejects on entry (an unknown `h5opts` key: `_set_h5opts` raises ValueError
+before any file is opened): one failing check in front of the first `create()` that is entered -/
+def optsPre (optsOk : Bool) : List PStep := if optsOk then [] else [.check false]
+
+/-- … for unordered ingestion the first `create()` entered is the one of chunk 0 in the temporary file,
+after chunk 0 has been pulled (or the final one, for the empty stream) -/
+def unorderedPreBadOpts (tcfg : Nat → Cfg) : List Ev → List PStep
+  | [] => [.check false]
+  | .raise :: _ => [.temp (tcfg 0) (.pull .raise)]
+  | .chunk c :: _ => [.temp (tcfg 0) (.pull (.chunk c)), .check false]
 
 /-! ### the merged stream of the final pass (up to chunking): sum the counts per key, keys ascending -/
 
